@@ -84,6 +84,11 @@ def scan_function(f):
                     and "transform" in n.func.value.id and n.args and ast.unparse(n.args[0]) in REAL:
                 out.append(("CAST-IN", n, f"`{ast.unparse(n)[:70]}` casts the transformation to a real dtype: a complex transformation silently loses its "
                                          "imaginary part"))
+        if isinstance(n, ast.Call) and isinstance(n.func, ast.Name) and n.func.id == "isinstance" and len(n.args) == 2 \
+                and isinstance(n.args[0], (ast.Tuple, ast.List)) and n.args[0].elts and all(isinstance(x, (ast.Name, ast.Attribute)) for x in n.args[0].elts) \
+                and isinstance(n.args[1], ast.Name):
+            out.append(("ISINST", n, f"`{ast.unparse(n)[:70]}` has its arguments swapped: the second argument of isinstance must be the type(s); this raises "
+                                     "TypeError whenever the test is reached"))
         if isinstance(n, ast.Call) and (_np(n) in ("isclose", "allclose") or (dotted(n.func) or "") == "math.isclose"):
             txt = " ".join(ast.unparse(a) for a in n.args[:2])
             if "coord" in txt or "center" in txt or "centre" in txt or "rel_dist" in txt:
